@@ -3,7 +3,7 @@
    no hypothesis. *)
 From Coq Require Import List String Ascii Bool Arith NArith Lia Permutation.
 From Helm Require Import Common.Assoc Common.Strs Storage.Spec Storage.Mem Storage.Kube
-  Storage.Proofs Storage.Lemmas Storage.Refine Storage.MemProofs Storage.MemNs.
+  Storage.Proofs Storage.Lemmas Storage.Refine Storage.MemProofs Storage.Rmw Storage.MemNs.
 Import ListNotations.
 Local Open Scope string_scope.
 
@@ -143,15 +143,15 @@ Proof.
   - simpl. rewrite !app_nil_r. apply ns_flat. now apply arel_names_of.
 Qed.
 
-Lemma mem_mstep_sim m c x :
+Lemma mem_op_sim m c o :
   MInv m c ->
-  MInv (fst (mem_mstep m x)) (fst (nspec_step c x)) /\
-  out_equiv (snd (mem_mstep m x)) (snd (nspec_step c x)).
+  MInv (fst (mem_step m o)) (fst (nspec_op c o)) /\
+  out_equiv (snd (mem_step m o)) (snd (nspec_op c o)).
 Proof.
-  intros HI. pose proof HI as [Hns Hrel]. destruct x as [o|ns]; [|simpl; repeat split; auto; constructor].
-  destruct o as [r|r|n v|n v| |q]; unfold mem_mstep.
+  intros HI. pose proof HI as [Hns Hrel].
+  destruct o as [r|r|n v|n v| |q].
   - (* Create *)
-    unfold mem_step, nspec_step. set (ns := ns_of r).
+    unfold mem_step, nspec_op. set (ns := ns_of r).
     pose proof (arel_names_of m c ns Hrel) as HR. pose proof (ns_create _ _ r HR) as Hc.
     destruct (aget (rname r) (names_of m ns)) as [recs|].
     + destruct (amem (key_of r) recs).
@@ -161,7 +161,7 @@ Proof.
     + destruct Hc as [Ho HR']. cbn [fst snd]. rewrite Ho. split; [|constructor].
       split; auto. cbn [mcache nstores]. now apply arel_aset.
   - (* Update *)
-    unfold mem_step, nspec_step. set (ns := ns_of r).
+    unfold mem_step, nspec_op. set (ns := ns_of r).
     pose proof (arel_ns _ _ ns Hrel) as Hn.
     destruct (aget ns (mcache m)) as [names|] eqn:Ec; destruct (aget ns (nstores c)) as [s|] eqn:Es; try tauto.
     + pose proof (ns_update _ _ r Hn) as Hu.
@@ -175,13 +175,13 @@ Proof.
       * rewrite Hu. cbn [fst snd]. split; [exact Hsame|constructor].
     + simpl. split; [|constructor]. split; auto.
   - (* Get *)
-    unfold mem_step, nspec_step. rewrite parse_make_key. unfold recs_of.
+    unfold mem_step, nspec_op. rewrite parse_make_key. unfold recs_of.
     rewrite (ns_get (names_of m (mns m)) (sget (ncur c) (nstores c))).
     2:{ rewrite Hns. now apply arel_names_of. }
     destruct (aget n (names_of m (mns m))) as [recs|]; [destruct (aget (make_key n v) recs)|];
       simpl; split; auto; constructor.
   - (* Delete *)
-    unfold mem_step, nspec_step. rewrite parse_make_key. rewrite Hns.
+    unfold mem_step, nspec_op. rewrite parse_make_key. rewrite Hns.
     pose proof (arel_ns _ _ (ncur c) Hrel) as Hn.
     destruct (aget (ncur c) (mcache m)) as [names|] eqn:Ec;
       destruct (aget (ncur c) (nstores c)) as [s|] eqn:Es; try tauto.
@@ -198,7 +198,7 @@ Proof.
   - (* List *)
     simpl. split; auto. constructor. now apply visible_perm.
   - (* Query *)
-    unfold mem_step, nspec_step.
+    unfold mem_step, nspec_op.
     assert (Hp : Permutation (filter (sys_match q) (mem_visible m)) (filter (sys_match q) (ns_visible c)))
       by (apply perm_filter; now apply visible_perm).
     pose proof (perm_nil_iff _ _ Hp) as Hnil.
@@ -208,6 +208,30 @@ Proof.
     + exfalso. destruct Hnil as [H _]. specialize (H eq_refl). discriminate.
     + exfalso. destruct Hnil as [_ H]. specialize (H eq_refl). discriminate.
     + split; auto. now constructor.
+Qed.
+
+Lemma perm_single {A} (a : A) l : Permutation [a] l -> l = [a].
+Proof. intros H. now apply Permutation_length_1_inv in H. Qed.
+
+Lemma mem_mstep_sim m c x :
+  MInv m c ->
+  MInv (fst (mem_mstep m x)) (fst (nspec_step c x)) /\
+  out_equiv (snd (mem_mstep m x)) (snd (nspec_step c x)).
+Proof.
+  intros HI. destruct x as [o|ns|n v st].
+  - now apply mem_op_sim.
+  - destruct HI as [Hns Hrel]. simpl. repeat split; auto; constructor.
+  - unfold mem_mstep, nspec_step, rmw.
+    destruct (mem_op_sim m c (rmw_query n v) HI) as [_ Hq].
+    set (om := snd (mem_step m (rmw_query n v))) in *.
+    set (oc := snd (nspec_op c (rmw_query n v))) in *. clearbody om oc.
+    inversion Hq as [|e|r|l1 l2 Hp]; subst; try (split; [exact HI|constructor]).
+    destruct l1 as [|a [|b l1]].
+    + apply Permutation_nil in Hp. subst. split; [exact HI|constructor].
+    + apply perm_single in Hp. subst. now apply mem_op_sim.
+    + destruct l2 as [|a2 [|b2 l2]];
+        try (apply Permutation_length in Hp; simpl in Hp; discriminate).
+      split; [exact HI|constructor].
 Qed.
 
 Lemma mem_mrun_sim xs : forall m c,
